@@ -93,14 +93,23 @@ class FakeGH:
         if url == '/graphql':
             m = re.search(r'pullRequest \(number: (\d+)\)', data['query'])
             n = int(m.group(1))
-            if w.fail_after is not None and w.fetched >= w.fail_after:
-                raise GithubDown('scripted GitHub failure')
-            w.fetched += 1
+            # cursor pagination as GitHub does it: `contexts (first: N, after: "<cursor>")`
+            q = data['query']
+            first = int(re.search(r'contexts \(first: (\d+)', q).group(1))
+            ma = re.search(r'after: "([^"]*)"', q)
+            start = int(ma.group(1)) if ma else 0
+            if start == 0:     # a refresh of this PR begins (the scripted failure counts pull requests, not pages)
+                if w.fail_after is not None and w.fetched >= w.fail_after:
+                    raise GithubDown('scripted GitHub failure')
+                w.fetched += 1
             p = w.prs[n]
             nodes = [{'__typename': 'StatusContext', 'context': (CI if c == 0 else 'check%d' % c), 'state': s, 'isRequired': True}
                      for c, s in sorted(p['statuses'].items())]
-            rollup = {'contexts': {'nodes': nodes, 'pageInfo': {'hasNextPage': False, 'endCursor': None}}} if nodes else None
-            w.prov[n] = {'review_for': p['head'], 'status_for': {c: p['head'] for c in p['statuses']}}
+            page = nodes[start:start + first]
+            more = start + first < len(nodes)
+            rollup = {'contexts': {'nodes': page, 'pageInfo': {'hasNextPage': more, 'endCursor': str(start + first) if more else None}}} if nodes else None
+            if start == 0:
+                w.prov[n] = {'review_for': p['head'], 'status_for': {c: p['head'] for c in p['statuses']}, 'status_truth': dict(p['statuses'])}
             return {'data': {'repository': {'pullRequest': {'reviewDecision': None if p['review'] == 'NONE' else p['review'],
                                                             'commits': {'nodes': [{'commit': {'statusCheckRollup': rollup}}]}}}}}
         m = re.fullmatch(r'/repos/[^/]+/[^/]+/statuses/(\w+)', url)
@@ -136,6 +145,10 @@ class FakeGH:
                          'statuses': {ctx_id(k): [v.value, prov['status_for'].get(ctx_id(k))] for k, v in pr.last_known_github_status.items()},
                          'batch': None if b is None else {'target_sha': b.attributes.get('target_sha'), 'source_sha': b.attributes.get('source_sha'),
                                                           'state': truth},
+                         # checks GitHub reported for this head at the last refresh that CI did not record (e.g. a dropped result page)
+                         'unseen_statuses': {str(c): st for c, st in prov.get('status_truth', {}).items()
+                                             if c != 0 and prov['status_for'].get(c) == data['sha']
+                                             and c not in {ctx_id(k) for k in pr.last_known_github_status}},
                          'build_state': pr.build_state, 'ci_target_sha': WB.sha, 'github_target_sha': w.target})
         p['open'] = False
         w.target = w.fresh()
